@@ -221,8 +221,14 @@ def body(ck):
         idx = np.cumsum(dims)[:-1].tolist()
         for t in range(3 if quick else 8):
             logits = rng.normal(size=tot) * 2.5
+            # classes of probability exactly zero (a -inf logit / a zero probability) in components with >= 2 classes
+            zero_at = [int(o + rng.integers(0, k)) for o, k in zip([0] + idx, dims) if k >= 2 and rng.random() < 0.7] if t % 3 != 0 else []
+            for z in zero_at:
+                logits[z] = -np.inf
             if t % 3 == 2:
                 pp = rng.random(tot) + 0.05
+                for z in zero_at:
+                    pp[z] = 0.0
                 d = MultiCategorical(probs=jnp.asarray(pp), action_dims=dims)
                 d_seq = MultiCategorical(probs=[jnp.asarray(x) for x in np.split(pp, idx)])
                 param = {"probs": pp.tolist()}
@@ -243,6 +249,11 @@ def body(ck):
             mode = np.asarray(d.mode())
             keys = jr.split(jr.key(int(rng.integers(2 ** 31))), nkeys)
             sl = [d.sample_and_log_prob(k) for k in keys]
+            ck.count("MultiCategorical/zero-probability-classes", len(zero_at))
+            if not np.isfinite(ent):
+                viol("C15/MultiCategorical/entropy-not-finite", f"entropy() = {ent} (sum of the component entropies = {sum(comp_ent)})",
+                     dict(component="MultiCategorical", dims=list(dims), **param, impl_entropy=str(ent), impl_component_entropies=comp_ent))
+                continue
             j = dict(component="MultiCategorical", dims=list(dims), **param, impl_joint_log_probs=jl.tolist(), impl_entropy=ent, impl_mode=mode.tolist(),
                      impl_component_log_probs=[c.tolist() for c in comp_lps], impl_component_entropies=comp_ent,
                      impl_sample_and_log_prob=[[np.asarray(s).tolist(), float(l)] for s, l in sl])
